@@ -110,6 +110,29 @@ def run(ctx):
                      {"mx": mx, "cosmo_params": cp, "wdm_model": wmodel})
             if not (np.all(ratio > 0) and np.all(ratio <= 1 + 1e-12) and np.all(np.diff(ratio) <= 1e-15)):
                 viol("TransferWDM/ratio-range", "T_wdm/T_cdm is not in (0,1] or not decreasing with k", {"mx": mx})
+        # one particle mass, redshift and model across several cosmologies in one process, as separate frameworks and as updates of one:
+        # the suppression is that of each framework's own cosmology
+        for wmodel in ("Viel05", "Bode01"):
+            tw1 = None
+            for cp in ({}, {"Om0": 0.4, "H0": 58.0}, {"H0": 78.0}, {}):
+                for how in ("fresh", "update"):
+                    if how == "fresh":
+                        tw = TransferWDM(wdm_mass=2.0, wdm_model=wmodel, cosmo_params=cp, z=0.0, **base)
+                    else:
+                        if tw1 is None:
+                            tw1 = TransferWDM(wdm_mass=2.0, wdm_model=wmodel, z=0.0, **base)
+                            tw1._unnormalised_lnT
+                        tw1.update(cosmo_params=dict({"Om0": Planck15.Om0, "H0": float(Planck15.H0.value)}, **cp))
+                        tw = tw1
+                    tc = Transfer(cosmo_params=cp, z=0.0, **base)
+                    ratio = np.exp(tw._unnormalised_lnT - tc._unnormalised_lnT)
+                    lam = 0.049 * 2.0 ** -1.11 * ((tw.cosmo.Om0 - tw.cosmo.Ob0) / 0.25) ** 0.11 * (tw.cosmo.h / 0.7) ** 1.22
+                    S = (1 + (lam * tw.k) ** (2 * 1.12)) ** (-5.0 / 1.12)
+                    nfw += 1
+                    if not np.allclose(ratio, S, rtol=1e-9, atol=0):
+                        viol("TransferWDM/ratio-is-suppression/same-mass-other-cosmology", f"TransferWDM({wmodel}, mx=2 keV, cosmo_params={cp}, reached by {how}) after other frameworks with the same particle mass: "
+                             f"T_wdm/T_cdm differs from the documented suppression for this cosmology by up to {float(np.max(np.abs(ratio / S - 1))):.3g}",
+                             {"wdm_model": wmodel, "cosmo_params": cp, "how": how, "sequence": "same wdm_mass, z, wdm_model under cosmologies {}, {Om0:0.4,H0:58}, {H0:78}, {} in one process"})
         # very light particles and small scales: the suppression is tiny but still the documented one (compared in log space)
         for mx_ in (0.1, 0.15, 0.3):
             bb_ = dict(transfer_model="EH", lnk_min=-4.0, lnk_max=float(np.log(2e4)), dlnk=0.25)
